@@ -131,7 +131,8 @@ func (enc *Encoder) WriteFloat64(f float64) {
 }
 
 func (enc *Encoder) writeComplex(r float64, i float64, bitSize int) {
-	if i == 0 {
+	if i == 0 && !math.Signbit(i) {
+		// only +0 may be left out: a negative zero imaginary part is written, like any other
 		enc.writeFloat(r, bitSize)
 	} else {
 		enc.AddReferenceCount(1)
